@@ -23,6 +23,7 @@ type Cfg struct {
 	NoVerify bool   `json:",omitempty"` // GossipVerifyIncoming off
 	PV       uint8  `json:",omitempty"`
 	Skip     bool   `json:",omitempty"` // SkipInboundLabelCheck: inbound traffic carries no header (an outer layer removed it); the label is still the associated data
+	LateKey  bool   `json:",omitempty"` // the node is created with an empty keyring; the keys are installed at run time, before anything is delivered
 }
 
 var KeyA = []byte("0123456789abcdef")
@@ -51,9 +52,26 @@ func NewWorld(seed uint64, cfg Cfg) (*World, error) {
 	if cfg.Encrypt {
 		conf.Keys = [][]byte{KeyA, KeyB, KeyC} // primary, a middle one and a last one
 	}
+	if cfg.Encrypt && cfg.LateKey {
+		conf.Keys, conf.EmptyKeyring = nil, true
+	}
 	p, err := puppet.New(seed, conf)
 	if err != nil {
 		return nil, err
+	}
+	if cfg.Encrypt && cfg.LateKey {
+		// from here on the node is keyed exactly like one that had its keys at creation, and must behave like one
+		kr := p.MC.Keyring
+		for _, k := range [][]byte{KeyA, KeyB, KeyC} {
+			if err := kr.AddKey(k); err != nil {
+				return nil, err
+			}
+		}
+		if err := kr.UseKey(KeyA); err != nil {
+			return nil, err
+		}
+		p.Conf.Keys = [][]byte{KeyA, KeyB, KeyC}
+		p.Codec = p.Conf.Codec()
 	}
 	w := &World{P: p, Cfg: cfg, AttAddr: "10.0.0.66:7946"}
 	w.M1 = p.AddPeer("m1", "10.0.0.11", 7946, Vsn)
